@@ -38,6 +38,10 @@ func nilCond(v Value) *Term {
 	return c
 }
 
+// errEmptyIndex: an element of a zero-length array was addressed (only possible on a path whose bounds check
+// already failed); loads with a statically known type substitute the zero value.
+var errEmptyIndex = unsupportedErr{"index into empty array"}
+
 func loadPath(v Value, path []PathEl) Value {
 	for pi, el := range path {
 		agg, ok := v.(*Agg)
@@ -53,7 +57,7 @@ func loadPath(v Value, path []PathEl) Value {
 			if i >= uint64(len(agg.E)) {
 				// out of range under an infeasible guard: return zero-ish value
 				if len(agg.E) == 0 {
-					panic(unsupported("index into empty array"))
+					panic(errEmptyIndex)
 				}
 				i = 0
 			}
@@ -62,7 +66,7 @@ func loadPath(v Value, path []PathEl) Value {
 		}
 		n := len(agg.E)
 		if n == 0 {
-			panic(unsupported("symbolic index into empty array"))
+			panic(errEmptyIndex)
 		}
 		rest := path[pi+1:]
 		r := loadPath(agg.E[n-1], rest)
